@@ -33,6 +33,9 @@ class C10(Hist1Prop):
     FIELDS = {"bins", "freq", "err2", "under", "over", "inner", "total", "dtype", "keep"}
 
     def gen_case(self, rng, k, tier):
+        if rng.random() < 0.4:
+            from . import nd_parts
+            return nd_parts.c10_gen(rng)
         pairs, t = gen1.rising_bins(rng)
         while rng.random() < 0.3 and len(pairs) < 12:
             l = pairs[-1][1]
@@ -55,7 +58,7 @@ class C10(Hist1Prop):
         # the two malformed merges are executed here (they are not part of the generic op language)
         from .. import impl1
         op = case["ops"][1]
-        if op["op"] != "invalid":
+        if op["op"] != "invalid" or case.get("kind") == "histn":
             return super().run_impl(case)
         s = impl1.Store()
         log = []
@@ -77,6 +80,9 @@ class C10(Hist1Prop):
         return []
 
     def oracle(self, case, io):
+        if case.get("kind") == "histn":
+            from . import nd_parts
+            return nd_parts.c10_oracle(case, io)
         outs, ops = io["outs"], case["ops"]
         fails = []
         if outs[0]["ret"] == "REFUSED":
@@ -154,6 +160,8 @@ class C10(Hist1Prop):
 
     def nontrivial(self, case, io):
         o = io["outs"]
+        if case.get("kind") == "histn":
+            return o[1]["ret"] == "ok" and len(o[1]["regs"]) > 0 and o[1]["regs"][-1] is not None and o[1]["regs"][-1]["shape"] != o[0]["regs"][0]["shape"]
         try:
             return o[1]["ret"] == "ok" and len(o[1]["regs"][-1]["bins"]) < len(o[0]["regs"][0]["bins"])
         except Exception:
